@@ -1,5 +1,7 @@
 import Gengo.Model.Loader
 import Gengo.Lemmas.WalkInv
+import Gengo.Lemmas.WalkIso
+import Gengo.Props.C01
 import Gengo.Lemmas.StrOrder
 /-! # C11 – the universe does not depend on how loading was split or ordered
 
@@ -380,5 +382,50 @@ theorem addDirTo_objects_stable (w : World) (st st' : LState) (path : Str) (hinv
     ∃ ob' : Universe.Obj, st'.u.objs[o]? = some ob' ∧ ob'.name = ob.name ∧ (ob.kind ≠ .unknown → ob'.kind = ob.kind) := by
   have g := (WalkInv.addDirToV1_inv w st st' path hinv h).2
   exact ⟨g.idx n o hl, g.objs o ob hob⟩
+
+
+/-! ## any two splits and orders give universes that agree wherever they overlap (Lemmas/WalkName.lean, WalkIso.lean) -/
+open Gengo.WalkDesc Gengo.WalkName Gengo.WalkIso
+
+/-- **split_and_order_irrelevant_v2**: take the same program and load it twice, with any initial requests and any
+sequences of incremental loads.  Whatever name is registered and filled in both resulting universes stands for
+objects that say the same: equal kinds, equal array lengths, members with equal names, embedded flags and tags in the
+same order, equal parameter and result names, equal variadic flags – and every object referenced by the one is
+registered in its universe under the very name under which its counterpart is registered in the other.  So
+"registered under the same name" is a bisimulation: the two universes are isomorphic on their common part.
+(`Consistent`: go/types prints nodes of different shape differently.) -/
+theorem split_and_order_irrelevant_v2 (w : World) (hng : NoGenerics w.facts) (hwf : WellFormed w.facts w.v2) (hbt : BtKinds w.bt)
+    (hc : Consistent w.facts w.v2) (req1 req2 : List Str) (ms1 ms2 : List (List Str)) (a b st1 st2 : LState)
+    (h1a : newUniverseV2 w req1 = some a) (h1 : loadsV2 w a ms1 = some st1)
+    (h2a : newUniverseV2 w req2 = some b) (h2 : loadsV2 w b ms2 = some st2)
+    (n : Name) (o1 o2 : Nat) (ob1 ob2 : Obj) (g1 g2 : Nat)
+    (l1 : AL.lookup n st1.u.types = some o1) (l2 : AL.lookup n st2.u.types = some o2)
+    (hob1 : st1.u.objs[o1]? = some ob1) (hob2 : st2.u.objs[o2]? = some ob2) (s1 : ob1.src = some g1) (s2 : ob2.src = some g2) :
+    ObjEq st1.u st2.u ob1 ob2 :=
+  same_name_same_content hc (loadsV2_faithful w hng hwf hbt req1 ms1 a st1 h1a h1) (loadsV2_faithful w hng hwf hbt req2 ms2 b st2 h2a h2)
+    n o1 o2 ob1 ob2 g1 g2 l1 l2 hob1 hob2 s1 s2
+
+/-- **split_and_order_irrelevant_v1**: the same for `FindTypes` followed by any sequence of `AddDirTo` -/
+theorem split_and_order_irrelevant_v1 (w : World) (hng : NoGenerics w.facts) (hwf : WellFormed w.facts w.v2) (hbt : BtKinds w.bt)
+    (hc : Consistent w.facts w.v2) (req1 req2 : List Str) (ps1 ps2 : List Str) (a b st1 st2 : LState)
+    (h1a : findTypesV1 w req1 = some a) (h1 : addDirsV1 w a ps1 = some st1)
+    (h2a : findTypesV1 w req2 = some b) (h2 : addDirsV1 w b ps2 = some st2)
+    (n : Name) (o1 o2 : Nat) (ob1 ob2 : Obj) (g1 g2 : Nat)
+    (l1 : AL.lookup n st1.u.types = some o1) (l2 : AL.lookup n st2.u.types = some o2)
+    (hob1 : st1.u.objs[o1]? = some ob1) (hob2 : st2.u.objs[o2]? = some ob2) (s1 : ob1.src = some g1) (s2 : ob2.src = some g2) :
+    ObjEq st1.u st2.u ob1 ob2 :=
+  same_name_same_content hc (addDirsV1_faithful w hng hwf hbt req1 ps1 a st1 h1a h1) (addDirsV1_faithful w hng hwf hbt req2 ps2 b st2 h2a h2)
+    n o1 o2 ob1 ob2 g1 g2 l1 l2 hob1 hob2 s1 s2
+
+/-- the members of corresponding structs correspond one for one, and their types are registered under common names -/
+theorem corresponding_structs_have_corresponding_members {u1 u2 : U} {ob1 ob2 : Obj} (h : ObjEq u1 u2 ob1 ob2)
+    (hk : ob1.kind = .struct) : ob2.kind = .struct ∧ All2 (MemberEq u1 u2) ob1.members ob2.members :=
+  ⟨h.kind ▸ hk, h.members hk⟩
+
+/-! non-vacuity: walking the cyclic demo program (`type T struct{ Next *T }`) from `T` and from `*T` gives universes that
+number their objects differently – `p.T` is object 0 in the one and object 1 in the other – so the correspondence of
+the theorems above is a genuine isomorphism, not an identity; the demo facts are `Consistent` (`C01.demo_consistent`) -/
+example : ((walk [] C01.demoFacts false 8 {} 0 none).map (fun r => AL.lookup C01.nT r.1.types)) = some (some 0) := by decide
+example : ((walk [] C01.demoFacts false 8 {} 2 none).map (fun r => AL.lookup C01.nT r.1.types)) = some (some 1) := by decide
 
 end Gengo.C11
